@@ -341,7 +341,7 @@ CHECKS = {
              "shown once in order, offsets carry failover[0] of the second response; failing 2nd request => OpenStream returns an error. "
              "non-trivial = log >= 2 entries, R strictly inside an older branch, events on both sides of F",
         assumptions=["simnode (memcached/DCP protocol as gocbcore v10.5.2 speaks it) is the trusted server model", "the server streams seqnos > R in increasing order inside announced snapshots"],
-        units=[rapid("TestC08_Rollback", 3000, 200000)],
+        units=[rapid("TestC08_Rollback", 3000, 1000000)],
         min_share=dict(any={"r_in_older_branch": ["cases", 0.15], "event_exactly_F": ["cases", 0.05], "second_error": ["cases", 0.05]}),
     ),
     "C09": dict(
